@@ -187,8 +187,8 @@ def run(ctx, only=None):
 
     # ---- 3. plan and write the Coq files
     known = ctx.known.findings.get('C08', {})
-    plan = _plan(ctx, dumps, ints, status, known)
-    files = _write(ctx, dumps, ints, status, plan, kx, nm)
+    plan = _plan(ctx, dumps, ints, status, known, audits)
+    files = _write(ctx, dumps, ints, status, plan, kx, nm, audits)
 
     # ---- 4. compile: data -> checks (parallel) -> assembly -> property file
     ok, _ = compile_parallel(ctx, files['data'])
@@ -233,7 +233,7 @@ def _report(ctx, d, a, nadv):
     ctx.fail(d.key, what, data)
 
 
-def _plan(ctx, dumps, ints, status, known):
+def _plan(ctx, dumps, ints, status, known, audits):
     """decide for every (cell, order) how it is established in Coq"""
     plan = {'groups': {}, 'route': {}, 'tol': {}, 'excluded': [], 'refuted': [], 'route_count': {}, 'unproved': []}
     # groups of identical rules among the entries the oracle accepts
@@ -255,15 +255,18 @@ def _plan(ctx, dumps, ints, status, known):
         for N, ns in sorted(plan['groups'][cell].items()):
             nadv = max(N, 0)
             route = None
+            worst = audits[(cell, N)]['worst']
             if cell in G.TENSOR:
                 f1, f2 = G.TENSOR[cell]
                 k1, k2 = (f1, N), (f2, N)
                 if plan['route'].get(k1) and plan['route'].get(k2):
                     close, tot = tensor_close(dumps[(cell, N)], dumps[k1], dumps[k2])
                     e1, e2 = TOLV[plan['tol'][k1]], TOLV[plan['tol'][k2]]
-                    if close and e1 + e2 + e1 * e2 + DELTAV <= TOLV[G.TOLINT[cell]]:
-                        route = ('tensor', f1, f2)
-                        plan['tol'][(cell, N)] = G.TOLINT[cell]
+                    for target in dict.fromkeys([G.TOLINT[cell], 'tol45']):
+                        if close and e1 + e2 + e1 * e2 + DELTAV <= TOLV[target]:
+                            route = ('tensor', f1, f2)
+                            plan['tol'][(cell, N)] = target
+                            break
             if route is None:
                 nq = len(dumps[(cell, N)].nodes)
                 parts, nmon = G.plan_parts(cell, nadv, nq)
@@ -272,7 +275,10 @@ def _plan(ctx, dumps, ints, status, known):
                     ctx.broke('proof', f'rule {cell} order {N}', f'no tensor structure and a direct check would take ~{cost:.0f}s')
                     plan['unproved'].append((cell, N))
                     continue
-                tolname = G.TOLINT[cell] if cell in G.PRIMITIVE else 'tol45'
+                # the sharpest of the internal tolerances that the measured defect meets with a factor 2 to spare
+                # (the stated bound is 2^-45 in any case)
+                cands = [G.TOLINT[cell]] if cell in G.PRIMITIVE else []
+                tolname = next((t for t in cands + ['tol46', 'tol45'] if 2 * worst <= TOLV[t]), 'tol45')
                 route = ('direct', parts, nmon)
                 plan['tol'][(cell, N)] = tolname
             for n in ns:
@@ -285,7 +291,7 @@ def _plan(ctx, dumps, ints, status, known):
 LIT_BUDGET = 2500      # binary64 literals per generated data file
 
 
-def _write(ctx, dumps, ints, status, plan, kx, nm):
+def _write(ctx, dumps, ints, status, plan, kx, nm, audits):
     files = {'data': [], 'checks': []}
     cid = D.COQ_ID
     hdr_data = ('(* GENERATED by vlib/props/c08.py by calling skfem.quadrature.get_quadrature — do not edit *)\n'
@@ -355,9 +361,15 @@ def _write(ctx, dumps, ints, status, plan, kx, nm):
                  [(cell, n), (route[1], n), (route[2], n)]))
     for cell, n in plan['refuted']:
         s = G.sfx(cell, n)
+        a = audits[(cell, n)]
+        if a['first_bad'] is not None:
+            es = '[' + '; '.join(f'{e}%nat' for e in a['worst_mono']) + ']'
+            stmt = f'check_part {G.coq_shape(cell)} {G.rname(cell, n)} {max(n, 0)} tol45 [{es}] = false'
+        else:
+            stmt = f'nodes_ok {G.coq_shape(cell)} {G.rname(cell, n)} = false'
         classes.setdefault(cell, []).append(
-            (1.0, f'(* the oracle found get_quadrature({cell}, {n}) not exact: the obligation is refuted *)\n'
-                  f'Lemma refuted_{s} : check_rule {G.coq_shape(cell)} {G.rname(cell, n)} {max(n, 0)} tol45 = false.\n'
+            (1.0, f'(* the oracle found get_quadrature({cell}, {n}) not exact: the obligation is refuted (exact arithmetic) *)\n'
+                  f'Lemma refuted_{s} : {stmt}.\n'
                   f'Proof. vm_cast_no_check (eq_refl false). Qed.\n', [(cell, n)]))
     total = sum(j[0] for jobs in classes.values() for j in jobs)
     nchk = 0
@@ -496,7 +508,8 @@ def _oracle_extra(ctx, dumps):
     # (b) orders far beyond the tables: must raise (or else deliver that degree, which the audit decides)
     far = list(range(25, 40)) + [50, 64, 100, 1000, 10 ** 6]
     for cell in ('RefTri', 'RefTet', 'RefWedge'):
-        for n in far:
+        # the prism calls the segment rule first, whose cost grows with the order: stay moderate there
+        for n in (far if cell != 'RefWedge' else far[:-2]):
             d = D.call(cell, n)
             ctx.count(('far', cell, n), nontrivial=False)
             ctx.hist('far-order:' + cell, d.kind)
